@@ -741,6 +741,7 @@ fn lookup_sub() -> Sub {
 // Unit-level plumbing: Dwarf::{attr_ranges_offset, attr_ranges, attr_locations_offset,
 // attr_locations, ranges_offset_from_raw}, default bases, file types.
 
+#[derive(Clone)]
 pub struct Secs {
     pub info: Vec<u8>,
     pub abbrev: Vec<u8>,
@@ -1089,7 +1090,27 @@ fn run_plumb(ctx: &mut Ctx, c: &PCfg, loc: bool, list: &[E]) {
     let (e_off, e_res) = if loc { ("Dwarf::attr_locations_offset", "Dwarf::attr_locations") } else { ("Dwarf::attr_ranges_offset", "Dwarf::attr_ranges") };
     let want_raw = m::raw_expected(list);
     let r = guard(|| -> Result<(u64, u64, Result<Vec<E>, String>, Got), String> {
-        let d = load(&s, c.big, c.dwo);
+        // GNU split DWARF before version 5: the .dwo unit's DW_AT_ranges points into the .debug_ranges
+        // of the main file, which Dwarf::make_dwo hands to the .dwo's Dwarf
+        let via_make_dwo = skel.is_some() && c.version < 5 && !loc;
+        let parent_secs;
+        let own_secs;
+        let (mut d, parent) = if via_make_dwo {
+            let mut p = skel.clone().unwrap();
+            p.ranges = s.ranges.clone();
+            p.addr = s.addr.clone();
+            parent_secs = p;
+            let mut o = s.clone();
+            o.ranges = vec![];
+            own_secs = o;
+            (load(&own_secs, c.big, false), Some(load(&parent_secs, c.big, false)))
+        } else {
+            (load(&s, c.big, c.dwo), None)
+        };
+        if let Some(p) = &parent {
+            d.make_dwo(p);
+        }
+        let d = d;
         let hdr = d.units().next().map_err(|e| format!("units: {}", e))?.ok_or("no unit")?;
         let mut unit = d.unit(hdr).map_err(|e| format!("Dwarf::unit: {}", e))?;
         if let Some(sk) = &skel {
